@@ -72,6 +72,14 @@ def desugar(loc, relfile, fn_paths, rules):
                     rewrites.append((v["call"][0], v["call"][1], new))
                     records.append({"fn": fp, "rule": "D3 X.iter().filter(|p| C).copied().collect::<Vec<_>>()  =>  { let mut out = Vec::new(); for p in X.iter() { if C { out.push(*p); } } out }",
                                     "original": src[v["call"][0]:v["call"][1]], "rewritten": new})
+                elif v["rule"] == "D16":
+                    pat = src[v["pat"][0]:v["pat"][1]]
+                    lo = src[v["lo"][0]:v["lo"][1]]
+                    hi = src[v["hi"][0]:v["hi"][1]]
+                    new = (f"let mut pv_{pat}: i64 = ({lo}) as i64; let pv_{pat}_hi: i64 = ({hi}) as i64; while pv_{pat} <= pv_{pat}_hi {{ let {pat}: i32 = pv_{pat} as i32; pv_{pat} += 1;")
+                    rewrites.append((v["call"][0], v["call"][1], new))
+                    records.append({"fn": fp, "rule": "D16 for x in LO..=HI { B } (i32 bounds)  =>  let mut k: i64 = LO; while k <= HI { let x = k as i32; k += 1; B }   (the counter is an i64 so that HI = i32::MAX does not overflow)",
+                                    "original": src[v["call"][0]:v["call"][1]], "rewritten": new})
                 elif v["rule"] == "D1":
                     recv = src[v["recv"][0]:v["recv"][1]]
                     idx = src[v["idx"][0]:v["idx"][1]]
